@@ -5,3 +5,10 @@ mod tests;
 
 pub(crate) use array_range_set::ArrayRangeSet;
 pub(crate) use btree_range_set::RangeSet;
+
+#[cfg(feature = "__verif-hooks")]
+#[allow(missing_docs, unreachable_pub, dead_code, unused_imports, unused_qualifications)]
+pub mod verif {
+    use super::*;
+    include!(concat!(env!("QUINN_VERIF_HOOKS"), "/proto/range_set/mod.rs"));
+}
